@@ -232,7 +232,7 @@ func runC04(c *Ctx) {
 	r := c.R
 	r.Assume("ground truth is attached by construction: the statement forms are non-idempotent or unparseable by the documented rules; EXECUTE/BATCH-by-id inherit the class of the text the id was prepared from through this proxy, ids the proxy never saw prepared are not positively idempotent")
 	r.Assume("'may have been applied' is decided from the backend's view: the request bytes were fully received and the outcome is not one of unavailable / bootstrapping / read timeout / unprepared")
-	r.Require("sequences_run", "partial_reply_cases", "lost_before_read_cases", "proxy_closed_connections_with_requests_in_flight", "custom_policy_cases")
+	r.Require("sequences_run", "partial_reply_cases", "lost_before_read_cases", "proxy_closed_connections_with_requests_in_flight", "custom_policy_cases", "redefined_id_cases")
 	type job struct {
 		hosts, conns int
 		class        c04Class
@@ -387,6 +387,12 @@ func runC04(c *Ctx) {
 			c04CustomPolicy(c, i)
 		}
 	}
+	// a backend that gives two statements the same prepared id
+	for i := 0; i < c.Pick(12, 240); i++ {
+		if c.Mine(i+2) && c.Replay == nil {
+			c04RedefinedID(c, i)
+		}
+	}
 	// requests in flight on connections that the proxy closes itself (idle timeout, host removed)
 	for i := 0; i < c.Pick(4, 200); i++ {
 		if c.Mine(i) && c.Replay == nil {
@@ -463,6 +469,84 @@ func c04CustomPolicy(c *Ctx, idx int) {
 					Detail:   fmt.Sprintf("a retry policy that always wants to retry is configured; a %s request that is not idempotent was answered %s and sent again: attempts %s (client error: %v)", kind, o, describe(attempts), cerr),
 					Scenario: map[string]interface{}{"kind": "c04-custom-policy", "idx": idx}, Witness: attempts})
 			}
+		}
+	}
+}
+
+// c04RedefinedID ("all histories of PREPAREs that define what a prepared id means"): the backend hands out the same prepared
+// id for two different statements - first an idempotent one, then one that is not (a backend is free to choose its ids; the
+// repository's own mock backend uses one fixed id). From the second PREPARE on the id stands for the non-idempotent text:
+// an EXECUTE of it that ends in an outcome after which it may have been applied must not be sent again.
+func c04RedefinedID(c *Ctx, idx int) {
+	r := c.R
+	hosts := 2 + idx%2
+	c.Step("c04 prepared id redefined idx=%d hosts=%d", idx, hosts)
+	bed, err := px.NewBed(px.BedConfig{Hosts: hosts, NumConns: 1, Keyspaces: []string{"ks1"}, ReconnectBase: time.Millisecond, ReconnectMax: 3 * time.Millisecond})
+	if err != nil {
+		r.Inconc("c04 redefined id: cannot start bed: " + err.Error())
+		return
+	}
+	defer bed.Close()
+	bed.OnHook(nil)
+	id := []byte(fmt.Sprintf("redefined-id-%04d", idx%10000))[:16]
+	scripts := NewScripts()
+	inner := scripts.Func()
+	bed.Cluster.SetScript(func(a *fakecass.Arrival) fakecass.Outcome {
+		if a.OpCode == primitive.OpCodePrepare && strings.Contains(a.Query, "ks1.redef") {
+			pr := fakecass.PreparedResultFor("", a.Query, a.Header.Version)
+			pr.PreparedQueryId = id
+			return fakecass.Outcome{Name: "Prepared", Msg: pr}
+		}
+		return inner(a)
+	})
+	idemText := "INSERT INTO ks1.redef (k, v) VALUES (?, 1)"
+	nonIdemTexts := []string{"UPDATE ks1.redef SET l = l + [1] WHERE k = ?", "INSERT INTO ks1.redef (k, v) VALUES (?, now())", "UPDATE ks1.redef SET c = c + 1 WHERE k = ?", "INSERT INTO ks1.redef (k, v) VALUES (?, 1) IF NOT EXISTS"}
+	nonIdem := nonIdemTexts[idx%len(nonIdemTexts)]
+	histories := [][]string{{idemText, nonIdem}, {nonIdem}, {idemText, idemText, nonIdem}}
+	history := histories[(idx/len(nonIdemTexts))%len(histories)]
+	var clients []*rawcql.Client
+	for i := 0; i < 2; i++ {
+		cl, err := bed.ReadyClient(primitive.ProtocolVersion4, []string{"", "lz4"}[(idx+i)%2])
+		if err != nil {
+			r.Inconc("c04 redefined id: handshake: " + err.Error())
+			return
+		}
+		defer cl.Close()
+		clients = append(clients, cl)
+	}
+	for i, q := range history {
+		f, err := clients[(i+idx)%2].Call(int16(100+i), &message.Prepare{Query: q}, 10*time.Second)
+		if err != nil || f.OpCode != primitive.OpCodeResult {
+			r.Inconc("c04 redefined id: PREPARE failed")
+			return
+		}
+	}
+	for _, h := range bed.Cluster.Hosts {
+		h.Learn(hex.EncodeToString(id), history[len(history)-1])
+	}
+	outcomes := []model.Outcome{model.Overloaded, model.ServerError, model.WriteTimeoutSimp, model.ConnLost, model.Truncate}
+	for oi, o := range outcomes {
+		tok := NewTok()
+		scripts.Set(tok, []model.Outcome{o, o, o, o})
+		mark := bed.Log.Len()
+		ex := &message.Execute{QueryId: id, Options: &message.QueryOptions{Consistency: primitive.ConsistencyLevelQuorum, PositionalValues: []*primitive.Value{primitive.NewValue([]byte(tok))}}}
+		cl := clients[oi%2]
+		_, cerr := cl.CallF(frame.NewFrame(primitive.ProtocolVersion4, int16(1+oi), ex), 15*time.Second)
+		attempts := Traces(bed.Log.Snapshot()[mark:])[tok]
+		r.Eval(1)
+		r.Obs("redefined_id_cases", 1)
+		r.NonTrivial(fmt.Sprintf("redefined-id/%s/history=%d/nonidem=%d", o, len(history), idx%len(nonIdemTexts)))
+		if len(attempts) > 1 {
+			r.Violate(mon.Violation{Signature: fmt.Sprintf("C04/re-executed-after/%s/prepared-id-redefined", o),
+				Detail:   fmt.Sprintf("PREPAREs through the proxy, in this order: %q - the backend answered each with the same id, so the id now stands for %q; an EXECUTE of it was answered %s and sent again: attempts %s (client error: %v)", history, nonIdem, o, describe(attempts), cerr),
+				Scenario: map[string]interface{}{"kind": "c04-redefined-id", "idx": idx}, Witness: attempts})
+			return
+		}
+		if o == model.ConnLost {
+			for _, h := range bed.Cluster.Hosts { // the hosts come back knowing the statement
+				h.Learn(hex.EncodeToString(id), history[len(history)-1])
+			}
+			WaitHealed(bed, hosts*len(bed.Proxy.VerifSessions()), 10*time.Second)
 		}
 	}
 }
